@@ -22,23 +22,38 @@ import (
 
 func okPath(p string) bool {
 	// the request line: a path starting with '/', no query / fragment, not a scheme-relative "//host"
-	return strings.HasPrefix(p, "/") && !strings.HasPrefix(p, "//") && !strings.ContainsAny(p, "?#") && len(p) <= 80
+	return strings.HasPrefix(p, "/") && !strings.HasPrefix(p, "//") && !strings.ContainsAny(p, "?#") && len(p) <= 90
 }
 
 // mode: 0 = GET route, 1 = Use route, 2 = GET route of a sub-app mounted under rt.MountPrefix (path
 // then is the full request path, prefix included)
 func emit(w *gen.Writer, id string, cfg rt.Cfg, mode int, pattern, path string, customs []string) {
-	userPath := path
-	if cfg.Unescape {
-		userPath = rt.Unquote(path)
+	emitHistory(w, id, cfg, mode, pattern, []string{path}, customs)
+}
+
+// emitHistory: one app, the requests served one after the other (see rt.ServeHistory). The path field
+// is the hex path for a single request, the comma-separated hex paths for a history; the
+// observation field holds one observation per request joined by '|'.
+func emitHistory(w *gen.Writer, id string, cfg rt.Cfg, mode int, pattern string, paths []string, customs []string) {
+	userPath := ""
+	for _, p := range paths { // every path starts with '/', so '/'-free substrings never span two paths
+		if cfg.Unescape {
+			userPath += rt.Unquote(p)
+		} else {
+			userPath += p
+		}
 	}
 	raw := pattern
 	if raw == "" || raw[0] != '/' {
 		raw = "/" + raw
 	}
 	vtf, vts := rt.Tables([]string{raw, rt.PrettyPattern(cfg, pattern)}, userPath, customs)
-	obs := rt.ServeMode(cfg, mode, pattern, path, customs, true)
-	w.Case(id, cfg.String(), strconv.Itoa(mode), gen.Hex(pattern), gen.Hex(path), gen.HexList(customs), vtf, vts, obs)
+	obs := strings.Join(rt.ServeHistory(cfg, mode, pattern, paths, customs, true), "|")
+	pf := gen.Hex(paths[0])
+	if len(paths) > 1 {
+		pf = gen.HexList(paths)
+	}
+	w.Case(id, cfg.String(), strconv.Itoa(mode), gen.Hex(pattern), pf, gen.HexList(customs), vtf, vts, obs)
 }
 
 func main() {
@@ -57,11 +72,17 @@ func main() {
 				if !ok || (f[2] != "0" && f[2] != "1" && f[2] != "2") {
 					return
 				}
-				pattern, path := gen.UnHex(f[3]), gen.UnHex(f[4])
-				if !okPath(path) {
-					return
+				pattern := gen.UnHex(f[3])
+				paths := []string{gen.UnHex(f[4])}
+				if strings.Contains(f[4], ",") {
+					paths = gen.UnHexList(f[4])
 				}
-				emit(w, f[0], cfg, int(f[2][0]-'0'), pattern, path, gen.UnHexList(f[5]))
+				for _, p := range paths {
+					if !okPath(p) {
+						return
+					}
+				}
+				emitHistory(w, f[0], cfg, int(f[2][0]-'0'), pattern, paths, gen.UnHexList(f[5]))
 			}()
 		}
 		return
@@ -85,6 +106,34 @@ func main() {
 		mount := !use && !malformed && r.Chance(1, 8)
 		for j := 0; j < per && i*per+j < o.N; j++ {
 			cfg := rt.Cfg{CS: r.Bool(), Strict: r.Bool(), Unescape: r.Bool()}
+			if !malformed && r.Chance(1, 5) { // a history: 2-4 requests on one app, values of equal length
+				var paths []string
+				for _, p := range g.FillHistory(r, 2+r.Intn(3)) {
+					if !strings.HasPrefix(p, "/") {
+						p = "/" + p
+					}
+					p = strings.NewReplacer("?", "", "#", "").Replace(p)
+					for strings.HasPrefix(p, "//") {
+						p = p[1:]
+					}
+					if !okPath(p) {
+						p = "/"
+					}
+					paths = append(paths, p)
+				}
+				mode := 0
+				if use {
+					mode = 1
+				} else if mount {
+					mode = 2
+					for k := range paths {
+						paths[k] = rt.MountPrefix + paths[k]
+					}
+				}
+				w.Count("history")
+				emitHistory(w, fmt.Sprintf("s%d.%d.%d", o.Seed, i, j), cfg, mode, pattern, paths, g.Customs)
+				continue
+			}
 			var path, kind string
 			if malformed {
 				filled := strings.NewReplacer("\\", "", "<", "", ">", "").Replace(pattern)
